@@ -1186,6 +1186,23 @@ class Executor:
                 continue
             if isinstance(it, range):
                 it = list(it)
+            if isinstance(it, Opaque) and not g.ifs:
+                # an unknown number of elements: if the element expression only reads names and attributes / calls methods of the comprehension's own variable(s) -- nothing that
+                # could touch modelled state -- the result is an unknown list
+                own = {n_.id for n_ in ast.walk(g.target) if isinstance(n_, ast.Name)}
+                harmless = True
+                for n_ in ast.walk(e.elt):
+                    if isinstance(n_, ast.Call):
+                        f_ = n_.func
+                        while isinstance(f_, ast.Attribute):
+                            f_ = f_.value
+                        if not (isinstance(n_.func, ast.Attribute) and isinstance(f_, ast.Name) and f_.id in own):
+                            harmless = False
+                    elif isinstance(n_, (ast.Lambda, ast.NamedExpr, ast.Yield, ast.Await)):
+                        harmless = False
+                if harmless:
+                    out.append((s, Opaque("comprehension")))
+                    continue
             if not isinstance(it, (tuple, list)):
                 raise Unsupported("comprehension over non-concrete iterable")
             res = [(s, [])]
@@ -1258,8 +1275,34 @@ class Executor:
 
     def dotted(self, f):
         if isinstance(f, tuple) and f and f[0] == "builtin":
-            return f[1]
+            return getattr(self, "import_aliases", {}).get(f[1], f[1])
         return None
+
+    # ---- a few standard-library functions (reached through `import math` / `from math import prod as _prod` ...)
+    def bi_math_prod(self, s, args, kw):
+        v = args[0]
+        if isinstance(v, (tuple, list)):
+            r = 1
+            for x in v:
+                r = self.binop(ast.Mult(), r, x, s)[0][1]
+            return r
+        return Opaque("math.prod")
+
+    def bi_itertools_accumulate(self, s, args, kw):
+        v = args[0]
+        if isinstance(v, (tuple, list)) and len(args) == 1 and not kw:
+            out, acc = [], None
+            for x in v:
+                acc = x if acc is None else self.binop(ast.Add(), acc, x, s)[0][1]
+                out.append(acc)
+            return out
+        return Opaque("itertools.accumulate")
+
+    def bi_itertools_product(self, s, args, kw):
+        if all(isinstance(v, (tuple, list, range)) for v in args) and not kw:
+            import itertools as _it
+            return [tuple(t) for t in _it.product(*[list(v) for v in args])]
+        return Opaque("itertools.product")
 
     def call(self, f, args, kw, s, node=None):
         name = self.dotted(f)
@@ -1267,6 +1310,24 @@ class Executor:
             if name in self.models:
                 r = self.models[name](self, s, args, kw)
                 return r if isinstance(r, list) else [(s, r)]
+            if name == "math.prod" and args and is_seq(args[0]):
+                # product over a sequence whose length is provably bounded on this path: complete case split on the length (as for a `for` over it)
+                it = args[0]
+                n_ = z3.Length(it)
+                bound = next((b_ for b_ in range(0, 9) if not self.feasible(s, n_ > b_)), None)
+                if bound is None:
+                    raise Unsupported("math.prod over a sequence of unbounded length")
+                outs = []
+                for L in range(bound + 1):
+                    if not self.feasible(s, n_ == L):
+                        continue
+                    sL = s.fork()
+                    sL.pc.append(n_ == L)
+                    r = 1
+                    for i in range(L):
+                        r = self.binop(ast.Mult(), r, it[i], sL)[0][1]
+                    outs.append((sL, r))
+                return outs
             b = getattr(self, "bi_" + name.replace(".", "_"), None)
             if b is not None:
                 return [(s, b(s, args, kw))]      # the built-in models never fork: a list they return is a Python list VALUE (zip, enumerate, list), not a list of outcomes
@@ -1336,6 +1397,12 @@ class Executor:
             return [(s, Raised("ValueError"))]
         if isinstance(o, list) and meth == "append":
             o.append(args[0])
+            return [(s, None)]
+        if isinstance(o, list) and meth == "extend" and len(args) == 1:
+            if isinstance(args[0], (list, tuple)):
+                o.extend(args[0])
+            else:
+                o.append(Opaque("extended-with"))        # an unknown number of unknown elements: the list is only ever handed on as a whole
             return [(s, None)]
         if isinstance(o, str) and meth == "format":
             return [(s, Opaque("str"))]
